@@ -116,6 +116,45 @@ def probes(rng, sub, imax, jmax, n, H, N):
     return [p[0] for p in pts], [p[1] for p in pts], [rng.choice(zc) for _ in pts]
 
 
+def margin_probes(rng, sub, imax, jmax, n, H):
+    """quarter-cell lattice points of the region Runge-Kutta stage positions are clipped to (xmin + 0.01 .. xmax - 0.01),
+    with emphasis on the margins outside the valid region"""
+    i0, i1, j0, j1 = sub if sub else (1, imax - 1, 1, jmax - 1)
+    xs = list(range(i0 * QH + 1, (i1 - 1) * QH))
+    ys = list(range(j0 * QH + 1, (j1 - 1) * QH))
+    edge_x = [x for x in xs if x <= i0 * QH + 3 or x >= (i1 - 1) * QH - 3]
+    edge_y = [y for y in ys if y <= j0 * QH + 3 or y >= (j1 - 1) * QH - 3]
+    pts = set()
+    while len(pts) < n:
+        r = rng.random()
+        if r < 0.4:
+            pts.add((rng.choice(edge_x), rng.choice(ys)))
+        elif r < 0.8:
+            pts.add((rng.choice(xs), rng.choice(edge_y)))
+        else:
+            pts.add((rng.choice(edge_x), rng.choice(edge_y)))
+    pts = sorted(pts)
+    hmax = max(max(r) for r in H)
+    zc = [0, 5, 10, 20, 30, 45, 60, 85, hmax + 20]
+    return [p[0] for p in pts], [p[1] for p in pts], [rng.choice(zc) for _ in pts]
+
+
+def margin_scenario(rng, n1=False):
+    """C17 family: like the C02 family, but the probes hug the edges of the loaded rectangle; optionally one level only"""
+    sc = space_scenario(rng)
+    sub = sc["subgrid"]
+    eff = sub
+    if sub:
+        eff = [sub[0], sub[1] + (sc["imax"] if sub[1] < 0 else 0), sub[2], sub[3] + (sc["jmax"] if sub[3] < 0 else 0)]
+    if n1:
+        sc["N"] = 1
+        sc["H"] = [[rng.choice([40, 80]) for _ in range(sc["imax"])] for _ in range(sc["jmax"])]
+    sc["xq"], sc["yq"], sc["z"] = margin_probes(rng, eff, sc["imax"], sc["jmax"], 40, sc["H"])
+    sc["kind"] = "margin"
+    sc["cls"] = dict(sc["cls"], N=sc["N"])
+    return sc
+
+
 def time_scenario(rng):
     """C03 family: space-uniform field (only the time logic matters), arbitrary frame layout / file partition."""
     dt = 30
